@@ -15,8 +15,9 @@ scalars; the `while` loop of `cart2geodetic` is `whileLoop <stop test> <iteratio
 The proofs live in `Proofs/Lemmas/{Dist,Conv,Los}.lean` and use only *normal forms* of the
 generated definitions, so harmless rewrites of the Python source do not disturb them.
 
-What is NOT proved here (validated numerically by the harness only, see notes/C07.md):
-floating-point accuracy (1 cm / 1e-7°) and the convergence of the `cart2geodetic` iteration.
+The convergence of the `cart2geodetic` iteration (contraction, termination, error at exit, 1 cm / 1e-7°
+round trip over the reals) is proved in `Proofs/Props/C07Conv.lean`.  What is NOT proved (validated numerically by
+the harness only, see notes/C07.md): floating-point accuracy.
 -/
 
 open TR
@@ -227,7 +228,8 @@ theorem C07_step_residual (x y z a e N h Bp B : ℝ) (hxy : x ≠ 0 ∨ y ≠ 0)
 exit state `s`, which passes the stop test (|B − B₀| ≤ the tolerance of the source); feeding the result back into
 `geodetic2cart` reproduces x and y exactly and z up to `|N(1−e²)+h| · |B − B₀| / cos B₀`.
 (`hden`: the divisor of the last pass is not zero, see `C07_geodetic_fixed_point`.)
--- NOT PROVED (partial): that the loop exits for every point of the domain (|lat| ≤ 88°, −10 km ≤ h ≤ 1000 km) — a
+-- (The hypotheses `hex`, `hden` are discharged on the domain in `Proofs/Props/C07Conv.lean`:
+-- `C07_loop_terminates`, `C07_exit_latitude_error`, `C07_cart2geodetic_at_exit`.)  Formerly: NOT PROVED here — a
 -- contraction estimate `C07_iteration_contracts` — and the resulting bound on the LATITUDE/HEIGHT error (the theorem
 -- bounds the residual in z, i.e. the defect of the defining equations, not the distance to the true (h, lat));
 -- both are validated numerically by the harness (mpmath inverse, 1 cm / 1e-7°). -/
